@@ -264,7 +264,12 @@ impl Number {
             Number::Fixnum(num) => num.unsigned_abs().into(),
             Number::Float(num) => num.abs().into(),
             Number::BigInt(num) => num.abs().into(),
-            Number::Rational(num) => num.abs().into(),
+            Number::Rational(num) => match num.numer().checked_abs() {
+                Some(numer) => Rational32::new_raw(numer, *num.denom()).into(),
+                // |i32::MIN| = 2^31 does not fit the numerator
+                None if num.is_integer() => (-(*num.numer() as i64)).into(),
+                None => (-(*num.numer() as f64) / *num.denom() as f64).into(),
+            },
         }
     }
 
@@ -289,7 +294,13 @@ impl Number {
             Number::Fixnum(_) => self.clone(),
             Number::Float(num) => num.floor().into(),
             Number::BigInt(_) => self.clone(),
-            Number::Rational(num) => num.floor().into(),
+            // in 64 bits: Ratio<i32>::floor computes numer - denom + 1, which overflows
+            Number::Rational(num) => Rational32::from_integer(
+                num::rational::Ratio::<i64>::new_raw(*num.numer() as i64, *num.denom() as i64)
+                    .floor()
+                    .to_integer() as i32,
+            )
+            .into(),
         }
     }
 
@@ -298,7 +309,13 @@ impl Number {
             Number::Fixnum(_) => self.clone(),
             Number::Float(num) => num.ceil().into(),
             Number::BigInt(_) => self.clone(),
-            Number::Rational(num) => num.ceil().into(),
+            // in 64 bits: Ratio<i32>::ceil computes numer + denom - 1, which overflows
+            Number::Rational(num) => Rational32::from_integer(
+                num::rational::Ratio::<i64>::new_raw(*num.numer() as i64, *num.denom() as i64)
+                    .ceil()
+                    .to_integer() as i32,
+            )
+            .into(),
         }
     }
 
